@@ -166,6 +166,9 @@ def gen_case(rng, tier):
         if rng.random() < 0.25:
             nd['v'] = rng.choice(spell)
             nd['style'] = 'dq'
+    if rng.random() < 0.3:
+        # an evaluation that overlaps with this one: a target which builds (and evaluates) another config of its own, somewhere in key order
+        base['items'].insert(rng.randrange(len(base['items']) + 1), [f'zn{serial[0]}', SP('call', func=f'verif_targets.nested{serial[0]}', args=M([['x', S(1)]]))])
     container_cycle = None
     if rng.random() < 0.05:
         base['items'].append(['cyc', M([['x', SP('xref', path='cyc')], ['y', S('inner', style='dq')]])])
